@@ -81,8 +81,20 @@ def loose_docs():
             for k in e.children:
                 walk(k)
         walk(tree)
-        out.append((f"two-encodings({first} first)", render_xml(doc, "xtce", tree=tree), "xtce", doc.root))
+        out.append((f"two-encodings({first} first)", render_xml(doc, "xtce", tree=tree), "xtce", doc.root, False))
+    # documents the library warns about (a Boolean type on a string encoding), loaded by a caller who turns warnings into errors ("strict") and
+    # by one who does not: the outcome - an error for the first, a definition for the second - is the same after any history
+    from mc.spec import Container, Doc, Fixed, Param, PType, StrEnc, header_entries, header_params, header_ptypes
+    bdoc = Doc(tuple(header_ptypes()) + (PType("BS_T", "Boolean", StrEnc(Fixed(8), "US-ASCII")),), tuple(header_params()) + (Param("BS", "BS_T"),),
+               (Container("CCSDSPacket", tuple(header_entries()) + (("p", "BS"),)),))
+    out.append(("boolean-on-string(strict caller)", render_xml(bdoc, "xtce"), "xtce", bdoc.root, True))
+    out.append(("boolean-on-string", render_xml(bdoc, "xtce"), "xtce", bdoc.root, False))
     return out
+
+
+def expected(base, idx):
+    b = base[idx]
+    return ("raised", b[8:]) if isinstance(b, str) and b.startswith("!raised:") else ("loaded", b)
 
 
 def load_bytes(xml: bytes, prefix, root="CCSDSPacket"):
@@ -130,8 +142,10 @@ def emit_baselines():
     i = int(sys.argv[1])
     nb = len(base_docs())
     if i >= nb:
-        _, xml, prefix, root = loose_docs()[i - nb]
-        d = load_bytes(xml, prefix, root)
+        _, xml, prefix, root, strict = loose_docs()[i - nb]
+        r = do_op(("baseline", xml, prefix, root, i, True, strict))
+        print(json.dumps({"digest": r[1] if r[0] == "loaded" else "!raised:" + r[1]}))
+        return
     else:
         doc = base_docs()[i]
         d = load_bytes(render_xml(doc, "xtce"), "xtce", doc.root)
@@ -229,8 +243,8 @@ def op_menu():
     ops.append(("latefail:1:q:dangling-typeRef", render_xml(docs_[1], "q", tree=corrupt(docs_[1], "Parameter", "parameterTypeRef")), "q", docs_[1].root, None, False))
     ops.append(("malformed:truncated", render_xml(docs_[0], "xtce")[:400], "xtce", "CCSDSPacket", None, False))
     ops.append(("malformed:not-xml", b"this is not xml", "xtce", "CCSDSPacket", None, False))
-    for k, (label, xml, prefix, root) in enumerate(loose_docs()):
-        ops.append((f"ok:{len(docs_) + k}:xtce:{label}", xml, prefix, root, len(docs_) + k, True))
+    for k, (label, xml, prefix, root, strict) in enumerate(loose_docs()):
+        ops.append((f"ok:{len(docs_) + k}:xtce:{label}", xml, prefix, root, len(docs_) + k, True, strict))
     return ops
 
 
@@ -241,9 +255,13 @@ def class_state():
 
 
 def do_op(op):
-    label, xml, prefix, root, di, ok = op
+    label, xml, prefix, root, di, ok = op[:6]
+    strict = len(op) > 6 and op[6]
+    import warnings
     try:
-        d = load_bytes(xml, prefix, root)
+        with warnings.catch_warnings():
+            warnings.simplefilter("error" if strict else "ignore")
+            d = load_bytes(xml, prefix, root)
         return ("loaded", canon_digest(d))
     except Exception as e:  # noqa: BLE001
         return ("raised", type(e).__name__)
@@ -255,6 +273,9 @@ def _task_histories(task):
     targets = [i for i, o in enumerate(ops) if o[5]]
     if task["length"] >= 4:
         targets = targets[::3]  # the longest histories are followed by every third target (one per namespace convention)
+    elif task["length"] == 3 and task.get("quick"):
+        # quick tier: histories of three operations are followed by every other document-rendering target and by every loose / strict target
+        targets = sorted(set(targets[::2]) | {i for i in targets if len(ops[i]) > 6})
     base = task["baselines"]
     fp0 = None
     states = set()
@@ -274,8 +295,7 @@ def _task_histories(task):
                     r = do_op(ops[ti])
                     t.evals += 1
                     t.transitions += 1
-                    want = base[ops[ti][4]]
-                    if r != ("loaded", want):
+                    if r != expected(base, ops[ti][4]):
                         t.violation({"kind": "history-dependent-load", "target": ops[ti][0].split(":")[2], "got": r[0],
                                      "exc": r[1] if r[0] == "raised" else None},
                                     {"history": [ops[i][0] for i in hist], "hist_idx": list(hist), "target": ops[ti][0], "target_idx": ti},
@@ -317,7 +337,7 @@ def closure(t: Tally, base):
                     for h in hist + (oi,):
                         do_op(ops[h])
                     t.evals += 1
-                    if r != ("loaded", base[ops[ti][4]]):
+                    if r != expected(base, ops[ti][4]):
                         t.violation({"kind": "history-dependent-load", "target": ops[ti][0].split(":")[2], "got": r[0], "where": "closure"},
                                     {"hist_idx": list(hist + (oi,)), "target_idx": ti, "target": ops[ti][0], "class_state": st}, observed=r)
         frontier = nxt
@@ -350,7 +370,7 @@ def run(ctx):
         if n <= 2:
             htasks.append({"length": n, "firsts": list(range(nops)), "baselines": base})
         else:
-            htasks += [{"length": n, "firsts": [f], "baselines": base} for f in range(nops)]
+            htasks += [{"length": n, "firsts": [f], "baselines": base, "quick": ctx.quick} for f in range(nops)]
     tally.merge(fan_out(_task_histories, htasks, jobs=ctx.jobs, seed=ctx.seed))
     nstates = closure(tally, base)
     coverage = {
@@ -361,7 +381,7 @@ def run(ctx):
         "bound": (f"spellings: {len(docs_)} base documents x 8 namespace renderings (prefix xtce, prefix q, an upper-case prefix XTCE, default namespace, none, none + xmlns:xsi, and the namespace bound twice on the root with the loader told the binding the elements do not use) x a comment at every inter-element position "
                   f"({'every position for prefix xtce/default/none, every third for q and none+xsi' if ctx.quick else 'every position'}), all at once, "
                   f"x whitespace variants x boolean attribute spellings true, True, TRUE x (every attribute written | attributes that equal their documented default left out) x character spellings (plain | numeric character references in text and attribute values | general entities of an internal DTD subset | CDATA sections), handed over in rotation as BytesIO / binary file object / text file object / str path / pathlib.Path; histories: every sequence of <= {3 if ctx.quick else 4} operations over a {nops}-operation menu "
-                  "(13 successful loads in different namespace conventions, two of them of documents with identical names and shape but different content, 2 loads of documents whose types carry two encodings in either order, 3 wrong-prefix loads, 4 loads that fail late inside the container/parameter set, 2 malformed inputs) followed by every target load (histories of length 4: every third target); "
+                  "(15 target loads in different namespace conventions, two of them of documents with identical names and shape but different content, 2 loads of documents whose types carry two encodings in either order, a document the library warns about loaded by a caller who turns warnings into errors and by one who does not, 3 wrong-prefix loads, 4 loads that fail late inside the container/parameter set, 2 malformed inputs) followed by every target load (histories of length 4: every third target; quick tier, length 3: every other rendering target and all loose / strict targets); "
                   "breadth-first closure over the real class-level namespace state to a fixed point"),
         "rule": ("one evaluation = one load compared with the fresh-interpreter canonical form; states = reachable class-level (nsmap, prefix) states "
                  "(complete); transitions = loads performed; traces = histories replayed"),
@@ -379,7 +399,7 @@ def replay(case):
         for oi in case["hist_idx"]:
             do_op(ops[oi])
         r = do_op(ops[case["target_idx"]])
-        if r != ("loaded", base[ops[case["target_idx"]][4]]):
+        if r != expected(base, ops[case["target_idx"]][4]):
             return {"sig": {"kind": "history-dependent-load", "target": ops[case["target_idx"]][0].split(":")[2], "got": r[0],
                             "exc": r[1] if r[0] == "raised" else None}, "case": case, "observed": r}
         return None
